@@ -123,7 +123,7 @@ def check_section(repo: Repo, rep, P: str, sec: Section, spec_chunks: Dict[str, 
         compat = {
             "pack": ("unpack", "packed", "custom"), "cstring": ("cstring",), "fixedstring": ("cstring",),
             "raw": ("raw", "custom"), "empty": ("custom", "ignored", "raw", "unpack", "packed", "cstring"),
-            "join": ("custom",), "call": ("custom", "raw"),
+            "join": ("custom",), "call": ("custom", "raw"), "text": ("cstring",),
         }.get(p.shape)
         if compat is None:
             rep.inconclusive(f"{P}.R1", wcon, p.text, f"payload shape {p.shape} not modelled", w.where)
@@ -178,6 +178,8 @@ def check_section(repo: Repo, rep, P: str, sec: Section, spec_chunks: Dict[str, 
         rt = [last(t) for t in r.targets]
         if w.cid in FIELD_EXCEPTIONS:
             ws, rs, why = FIELD_EXCEPTIONS[w.cid]
+            if w.cid == "VERS" and wsrc[:1] == ["sunsynth_version"]:
+                ws, rs = "sunsynth_version", "loaded_sunsynth_version"
             if wsrc[:1] == [ws] and rt[:1] == [rs]:
                 rep.ok(f"{P}.R2", rcon, f"{w.cid}: {ws} → {rs}", f"frozen exception: {why}", nontrivial=False)
             else:
